@@ -57,7 +57,9 @@ impl BuiltInFunctionList {
                 let eng_num_string = BuiltInFunctionList::replace_bn_with_en_digit(bangla_num_string);
                 let convert_result = eng_num_string.parse::<f64>();
                 match convert_result {
-                    Ok(n) => return Ok(DataType::Num(n)),
+                    // parse also accepts "nan", "inf" and "infinity", those are words not numbers
+                    Ok(n) if n.is_finite() => return Ok(DataType::Num(n)),
+                    Ok(_) => return Err(format!("String is not a number")),
                     Err(e) => return  Err(format!("{:?}", e)),
                 }
             } else {
